@@ -450,10 +450,16 @@ NAMES = 'ABCDEFGH'
 LABS = 'abcdefghk'
 
 
-def base_string(perm, edges, names):
+BASE_SYM = {1: '', 2: '=', 3: '#'}
+
+
+def base_string(perm, edges, names, mult=None):
     """base graph listing the parts in the order `perm`; edges: set of frozenset({p, q}).
     consecutive parts that are bonded are written next to each other, other consecutive parts are
-    separated by '.', the remaining bonds are ring bonds"""
+    separated by '.', the remaining bonds are ring bonds.  mult: {edge: number of cut bonds between the two parts}
+    (two ring bonds cut: the base edge has order 2, written `[#A]=[#B]`); None when such an edge would have to be
+    written as a ring bond"""
+    mult = mult or {}
     where = {p: i for i, p in enumerate(perm)}
     direct = set()
     for i in range(1, len(perm)):
@@ -464,9 +470,13 @@ def base_string(perm, edges, names):
     marker = {}
     free = list(range(1, 10))
     out = ''
+    if any(mult.get(frozenset(e), 1) != 1 for e in rings):
+        return None
     for i, p in enumerate(perm):
         if i > 0 and frozenset((perm[i - 1], p)) not in direct:
             out += '.'
+        elif i > 0:
+            out += BASE_SYM[mult.get(frozenset((perm[i - 1], p)), 1)]
         out += '[#%s]' % names[p]
         for e in rings:
             if e[1] == p:
@@ -537,9 +547,17 @@ def make_variant(m, rng, cut, perm=None, kind='', check=True):
     if amb and check:
         return None
     edges = {frozenset((owner[a], owner[b])) for a, b in cut}
+    mult = {}
+    for a, b in cut:
+        e = frozenset((owner[a], owner[b]))
+        mult[e] = mult.get(e, 0) + 1
+    if any(len(e) != 2 or k > 3 for e, k in mult.items()):
+        return None
     names = {i: NAMES[i] for i in range(len(parts))}
     perm = list(range(len(parts))) if perm is None else perm
-    base = base_string(perm, edges, names)
+    base = base_string(perm, edges, names, mult)
+    if base is None:
+        return None
     defs = ['#%s=%s' % (names[i], texts[i]) for i in range(len(parts))]
     rng.shuffle(defs)
     return {'s': base + '.{' + ','.join(defs) + '}', 'mol': m.dump(), 'kind': kind, 'nparts': len(parts),
@@ -571,7 +589,9 @@ def variants_of(m, rng, budget):
             if not all_perms and len(perms) > 6:
                 perms = rng.sample(perms, 6)
             for pm in perms:
-                out.append(reorder(v, pm))
+                r = reorder(v, pm)
+                if r is not None:
+                    out.append(r)
             return
 
     # single fragment: several start atoms / branch orders
@@ -593,6 +613,28 @@ def variants_of(m, rng, budget):
     mb.sort(key=lambda b: (min(len(c) for c in components(m, [b])), rng.random()))
     for b in mb[:4]:
         add([b], 'cut-marked-substituent', True, tries=4)
+    # RING LINK bonds: a ring atom cut out of its ring at both ring bonds (two cut bonds between the same two fragments,
+    # base edge of order 2), first the ring atoms NEXT TO a stereo double bond (ligands of an anchor), then any other;
+    # alone and together with one cut elsewhere
+    g0 = m.graph()
+    ringb = [b for b in bonds if b not in bridges and not m.marked(*b) and b not in stereo]
+    ratoms = sorted({a for b in ringb for a in b})
+    def ring_cut(r):
+        bs = [b for b in ringb if r in b]
+        if len(bs) != 2 or len([n for n in g0[r] if tuple(sorted((r, n))) not in bridges]) != 2:
+            return None
+        return bs if len(components(m, bs)) == 2 else None
+    near = [r for r in ratoms if any(n in anchors for n in g0[r])]
+    far = [r for r in ratoms if r not in near]
+    rng.shuffle(far)
+    for r in near[:3] + far[:2]:
+        rc = ring_cut(r)
+        if rc is None:
+            continue
+        add(rc, 'cut-ring-links' + ('-next-to-stereo' if r in near else ''), True)
+        extra = [b for b in cuttable if b not in rc]
+        if extra and rng.random() < 0.6:
+            add(rc + [rng.choice(extra)], 'cut-ring-links+elsewhere', True)
     # several cuts (<= 4 fragments: every order)
     pool = cuttable + mb
     for _ in range(3):
@@ -613,9 +655,13 @@ def reorder(v, perm):
     import re
     labs = [set(re.findall(r'\[\$([a-z])\]', t)) for t in v['texts']]
     edges = {frozenset((i, j)) for i in range(len(labs)) for j in range(i + 1, len(labs)) if labs[i] & labs[j]}
+    mult = {frozenset((i, j)): len(labs[i] & labs[j]) for i in range(len(labs)) for j in range(i + 1, len(labs)) if labs[i] & labs[j]}
     frs = v['s'].split('.{', 1)[1]
     c['perm'] = list(perm)
-    c['s'] = base_string(list(perm), edges, {i: NAMES[i] for i in range(len(labs))}) + '.{' + frs
+    base = base_string(list(perm), edges, {i: NAMES[i] for i in range(len(labs))}, mult)
+    if base is None:
+        return None
+    c['s'] = base + '.{' + frs
     return c
 
 
@@ -774,6 +820,64 @@ def aryl_cases(rng):
     mol = m.dump()
     return [{'s': st, 'mol': mol, 'kind': 'aryl-thioether:' + k, 'nparts': st.split('.{')[0].count('#'),
              'wb': wb, 'aromatic': True} for k, st in strings]
+
+
+def styrene_cases(rng):
+    """AROMATIC molecules with the stereo double bond in a side chain, the aromatic ring atom itself the marked ligand
+    (`Fc1ccc(cc1)/C(Cl)=C/Br`: ligand written before its anchor, the mark after a closed branch; `Br/C(Cl)=C/c1ccc(F)cc1`:
+    ligand written after), single, cut at the double bond, cut at the ring's other substituent, both base orders.
+    Hand-written texts.  The para-substituted ring has a mirror automorphism; every judged atom is a fixed point."""
+    out = []
+    for before in (True, False):
+        x1, x2, x3 = rng.sample(HAL, 3)
+        t1, t2 = rng.choice('/\\'), rng.choice('/\\')
+        m = SMol()
+        if before:
+            h = m.add(x1)
+            ring = [m.add('C') for _ in range(6)]
+            att = ring[3]
+            d1, d2 = m.add('C'), m.add('C')
+            y, z = m.add(x2), m.add(x3)
+            m.bond(h, ring[0]); m.bond(att, d1); m.bond(d1, y); m.bond(d1, d2, 2); m.bond(d2, z)
+            m.side = {(att, d1): ('d' if t1 == '/' else 'u'), (z, d2): ('u' if t2 == '/' else 'd')}
+            wb = [[att, d1, True, False], [z, d2, False, False]]
+            head, tail = '%sC(%s)=' % (t1, x2), 'C%s%s' % (t2, x3)
+            strings = [
+                ('single', '{[#M]}.{#M=%sc1ccc(cc1)%s%s}' % (x1, head, tail)),
+                ('cut at double bond', '{[#A][#B]}.{#A=%sc1ccc(cc1)%s[$],#B=[$]=%s}' % (x1, head, tail)),
+                ('cut at double bond, reversed', '{[#B][#A]}.{#A=%sc1ccc(cc1)%s[$],#B=[$]=%s}' % (x1, head, tail)),
+                ('cut halogen|ring', '{[#A][#B]}.{#A=%s[$],#B=[$]c1ccc(cc1)%s%s}' % (x1, head, tail)),
+                ('cut halogen|ring, reversed', '{[#B][#A]}.{#A=%s[$],#B=[$]c1ccc(cc1)%s%s}' % (x1, head, tail)),
+                ('cut in three', '{[#A][#B][#C]}.{#A=%s[$a],#B=[$a]c1ccc(cc1)%s[$b],#C=[$b]=%s}' % (x1, head, tail)),
+                ('cut in three, last first', '{[#C][#B][#A]}.{#A=%s[$a],#B=[$a]c1ccc(cc1)%s[$b],#C=[$b]=%s}' % (x1, head, tail)),
+            ]
+        else:
+            z = m.add(x3)
+            d1, d2 = m.add('C'), m.add('C')
+            y = m.add(x2)
+            ring = [m.add('C') for _ in range(6)]
+            att = ring[0]
+            h = m.add(x1)
+            m.bond(z, d1); m.bond(d1, y); m.bond(d1, d2, 2); m.bond(d2, att); m.bond(ring[3], h)
+            m.side = {(z, d1): ('d' if t1 == '/' else 'u'), (att, d2): ('u' if t2 == '/' else 'd')}
+            wb = [[z, d1, True, False], [att, d2, False, False]]
+            head, tail = '%s%sC(%s)=' % (x3, t1, x2), 'C%sc1ccc(%s)cc1' % (t2, x1)
+            strings = [
+                ('single', '{[#M]}.{#M=%s%s}' % (head, tail)),
+                ('cut at double bond', '{[#A][#B]}.{#A=%s[$],#B=[$]=%s}' % (head, tail)),
+                ('cut at double bond, reversed', '{[#B][#A]}.{#A=%s[$],#B=[$]=%s}' % (head, tail)),
+                ('cut ring|halogen', '{[#A][#B]}.{#A=%sC%sc1ccc([$])cc1,#B=[$]%s}' % (head, t2, x1)),
+                ('cut ring|halogen, reversed', '{[#B][#A]}.{#A=%sC%sc1ccc([$])cc1,#B=[$]%s}' % (head, t2, x1)),
+                ('cut in three', '{[#A][#B][#C]}.{#A=%s[$a],#B=[$a]=C%sc1ccc([$b])cc1,#C=[$b]%s}' % (head, t2, x1)),
+                ('cut in three, middle first', '{[#B]([#A])[#C]}.{#A=%s[$a],#B=[$a]=C%sc1ccc([$b])cc1,#C=[$b]%s}' % (head, t2, x1)),
+            ]
+        for i in range(6):
+            m.bond(ring[i], ring[(i + 1) % 6], 1.5)
+        m.stereo = [[d1, d2]]
+        mol = m.dump()
+        out += [{'s': st, 'mol': mol, 'kind': 'styrene-%s:%s' % ('aryl-first' if before else 'aryl-last', k),
+                 'nparts': st.split('.{')[0].count('#'), 'wb': wb, 'aromatic': True} for k, st in strings]
+    return out
 
 
 STATS = {'ambiguous': 0, 'pysmiles_disagrees': 0, 'asymmetric_retry': 0}
@@ -1023,6 +1127,7 @@ class C15(common.Prop):
         out += rep[:max(6, n // 12)]
         for _ in range(max(1, n // 150)):
             out += aryl_cases(rng)
+            out += styrene_cases(rng)
         guard = 0
         while len(out) < n and guard < 50 * n:
             guard += 1
